@@ -84,6 +84,12 @@ def _run_once(rules, strat, names):
         sd.expand_attractor_seeds()
     elif strat == "min":
         sd.expand_minimal_spaces()
+    elif strat == "skip":
+        # the root expanded, every stub skipped to its minimal trap spaces (several solver answers consumed in order from
+        # a Petri net restricted to the stub)
+        sd.node_successors(sd.root(), compute=True)
+        for i in sorted(sd.stub_ids()):
+            sd.skip_to_minimal(i)
     seeds = {int(i): [ops._t(names, s) for s in v] for i, v in sd.expanded_attractor_seeds().items()}
     dump = ops.dump_sd(sd, names, attractors=True)
     # interventions towards the first minimal trap space (if any), both strategies
@@ -145,32 +151,34 @@ def fresh_process(rules, strat, names, hashseed):
 _SEEDS = {}
 
 
-def pick_hash_seeds(names):
-    """two PYTHONHASHSEED values under which a set of the variable names iterates in different orders (for every
-    pair of names if possible): calibrated once per worker, so that the sampled seeds are not accidentally equivalent"""
-    key = tuple(names)
+def pick_hash_seeds(names, k=2):
+    """k PYTHONHASHSEED values under which sets of the variable names, of pairs of names and of the Petri-net place
+    names (b0_x, b1_x) iterate in pairwise different orders as far as possible: calibrated once per worker, so that the
+    sampled seeds are not accidentally equivalent"""
+    key = (tuple(names), k)
     if key in _SEEDS:
         return _SEEDS[key]
     orders = {}
-    code = "import sys; n=%r; print([list(set(n)), [list({a,b}) for a in n for b in n if a<b]])" % (list(names),)
-    for hs in range(1, 25):
+    code = ("import sys; n=%r; pl=['b%%d_%%s' %% (b, x) for x in n for b in (0, 1)]; "
+            "print([list(set(n)), [list({a,b}) for a in n for b in n if a<b], list(set(pl)), [list({a,b}) for a in pl for b in pl if a<b]])" % (list(names),))
+    for hs in range(1, 33):
         p = subprocess.run([sys.executable, "-c", code], capture_output=True, text=True, env=dict(os.environ, PYTHONHASHSEED=str(hs)))
-        orders[hs] = p.stdout.strip()
+        orders[hs] = eval(p.stdout.strip())
+
+    def dist(a, b):
+        oa, ob = orders[a], orders[b]
+        return (oa[0] != ob[0]) + sum(1 for x, y in zip(oa[1], ob[1]) if x != y) + 2 * (oa[2] != ob[2]) + sum(1 for x, y in zip(oa[3], ob[3]) if x != y)
     seeds = sorted(orders)
-    best = (seeds[0], seeds[1])
-    bestd = -1
-    for a in seeds:
-        for b in seeds:
-            if a < b:
-                pa, pb = eval(orders[a])[1], eval(orders[b])[1]
-                d = sum(1 for x, y in zip(pa, pb) if x != y) + (eval(orders[a])[0] != eval(orders[b])[0])
-                if d > bestd:
-                    bestd, best = d, (a, b)
-    _SEEDS[key] = best
-    return best
+    best = max(((a, b) for a in seeds for b in seeds if a < b), key=lambda ab: dist(*ab))
+    chosen = list(best)
+    while len(chosen) < k:
+        nxt = max((c for c in seeds if c not in chosen), key=lambda c: min(dist(c, d) for d in chosen))
+        chosen.append(nxt)
+    _SEEDS[key] = tuple(chosen)
+    return _SEEDS[key]
 
 
-def execute(rules, strat, names, cross=True):
+def execute(rules, strat, names, cross=True, nseeds=2):
     a = run_once(rules, strat, names)
     asc = with_set_order("asc", lambda: run_once(rules, strat, names))
     desc = with_set_order("desc", lambda: run_once(rules, strat, names))
@@ -182,10 +190,10 @@ def execute(rules, strat, names, cross=True):
     b = run_once(rules, strat, names)
     out = {"a": a, "b": b, "asc": asc, "desc": desc}
     if cross:
-        s1, s2 = pick_hash_seeds(names)
-        out["c1"] = fresh_process(rules, strat, names, s1)
-        out["c2"] = fresh_process(rules, strat, names, s2)
-        out["hash_seeds"] = [s1, s2]
+        hs = pick_hash_seeds(names, nseeds)
+        for i, h in enumerate(hs):
+            out[f"c{i + 1}"] = fresh_process(rules, strat, names, h)
+        out["hash_seeds"] = list(hs)
     return out
 
 
@@ -195,7 +203,7 @@ def assertion(B, out):
               B.const(out["a"] == out["b"]))]
     parts.append(("results do not depend on the iteration order of sets (ascending vs descending order forced inside the library)",
                   B.const(out["asc"] == out["desc"] and out["asc"] == out["a"])))
-    for k in ("c1", "c2"):
+    for k in sorted(x for x in out if x[0] == "c" and x[1:].isdigit()):
         if k in out:
             parts.append((f"fresh interpreter with another PYTHONHASHSEED ({k}, seeds {out.get('hash_seeds')}) gives identical results", B.const(out["a"] == out[k])))
     if "c1" in out and "c2" in out:
@@ -218,7 +226,7 @@ def run_task(task):
     def harness(ctx, rules):
         oracles.AEON_TEXT.clear()
         count[0] += 1
-        out = execute(rules, strat, net.names, cross=(count[0] % every == 0))
+        out = execute(rules, strat, net.names, cross=(count[0] % every == 0), nseeds=int(task["params"].get("nseeds", 2)))
         parts = assertion(net, out)
         if selftest:
             parts.append(("selftest", net.FALSE))
@@ -231,7 +239,7 @@ def run_task(task):
 
 def replay(rec):
     B = ConcreteNet.from_bnet(rec["rules"])
-    out = execute(rec["rules"], rec["params"]["strat"], B.names, cross=True)
+    out = execute(rec["rules"], rec["params"]["strat"], B.names, cross=True, nseeds=max(4, int(rec["params"].get("nseeds", 2))))
     parts = assertion(B, out)
     if rec["params"].get("selftest"):
         parts.append(("selftest", False))
@@ -257,9 +265,13 @@ def tasks(tier, seed, selftest=False):
                       "params": {"strat": st, "cross_every": 4}})
             # networks with symmetric driver sets (two valuations of the same variable pair force a third variable)
             T.append({"prop": PROP, "family": "U3sym", "label": f"U3sym/{st}", "timebox": 40 if q else 900, "seed": seed,
-                      "params": {"strat": st, "cross_every": 1}})
+                      "params": {"strat": st, "cross_every": 1, "nseeds": 3}})
         if not q:
             T.append({"prop": PROP, "family": "B22", "label": f"B22/{st}", "timebox": 600, "seed": seed, "params": {"strat": st, "cross_every": 4}})
+    if not selftest:
+        # "P:RING3+SW2": a stub that fixes more than half of the variables and still holds two minimal trap spaces
+        for fam in ("P:RING3+SW2", "P:SW2+SW2", "D3"):
+            T.append({"prop": PROP, "family": fam, "label": f"{fam}/skip", "timebox": 40 if q else 900, "seed": seed, "params": {"strat": "skip", "cross_every": 1, "nseeds": 4}})
     return T
 
 
